@@ -688,9 +688,15 @@ func forwarderVariant(run *lib.Run, hb *lib.Heartbeat, root *lib.RNG) {
 		// every other run listens with the PROXY protocol: clients announce themselves first, and
 		// some never do (their connections are ended by the header timeout before the shutdown)
 		pp := i%2 == 1
+		// one run in three has no drain limit at all (and therefore no idle keep-alive connections,
+		// which only the end of the drain time closes)
+		noLimit := i%3 == 2
 		p := lib.MustProxy(lib.ProxyOpts{Cfg: func(cfg *forwarder.HTTPProxyConfig) {
 			// idle keep-alive connections are only closed by Close() after the drain timeout
 			cfg.ShutdownTimeout = 2500 * time.Millisecond
+			if noLimit {
+				cfg.ShutdownTimeout = 0 // documented as "no limit": the drain lasts as long as the exchanges do
+			}
 			if pp {
 				cfg.ProxyProtocolConfig = forwarder.DefaultProxyProtocolConfig()
 				cfg.ProxyProtocolConfig.ReadHeaderTimeout = 300 * time.Millisecond
@@ -698,8 +704,12 @@ func forwarderVariant(run *lib.Run, hb *lib.Heartbeat, root *lib.RNG) {
 		}, Transport: func(tc *forwarder.HTTPTransportConfig) {
 			tc.RedirectFunc = func(network, address string) (string, string) { return network, g.o.Addr }
 		}})
-		run.Case(idx, fmt.Sprintf("forwarder-run-cancel|pp=%v", pp), nil)
+		run.Case(idx, fmt.Sprintf("forwarder-run-cancel|pp=%v|no-limit=%v", pp, noLimit), nil)
 		nHeld, nIdle := r.Range(1, 6), r.Range(0, 5)
+		if noLimit {
+			nIdle = 0
+			run.Count("forwarder_variant_runs_without_drain_limit", 1)
+		}
 		var held, idle []*conn
 		var silent []*lib.Stream
 		if pp {
